@@ -106,6 +106,17 @@ Theorem C13_forged_retry_rejected : forall tagf s i od r a,
 Proof. exact forged_retry_rejected. Qed.
 Print Assumptions C13_forged_retry_rejected.
 
+(** Nothing is handled after the connection has been closed: whatever is queued behind the packet
+    that closed it (a Version Negotiation packet without a common version, a CONNECTION_CLOSE, ...)
+    changes neither state nor outcomes. (Repaired in /repo: handlePackets used to go on with the queue after
+    handleVersionNegotiationPacket had destroyed the connection, finding
+    simhandshake/dial-ok-closed/version-negotiation.) *)
+Theorem C13_closed_stops : forall tagf ops1 s s1 outs ops2,
+  run tagf s ops1 = (s1, outs) -> terminal (last outs ONone) = true ->
+  run tagf s (ops1 ++ ops2) = (s1, outs).
+Proof. exact closed_stops. Qed.
+Print Assumptions C13_closed_stops.
+
 (** Handshake deadline: while the handshake is incomplete the timer deadline is at most
     creation + 2 * HandshakeIdleTimeout, and a wake-up at or after the deadline closes the connection
     with a handshake/idle timeout, at the latest on the second pass (a due keep-alive goes first). *)
@@ -149,3 +160,17 @@ Example C13_example_deadline :
   hs_deadline t = 5001 /\ timeout_branch t 5001 = (t, TIdleTimeout) /\ timeout_branch t 5000 = (t, TContinue).
 Proof. vm_compute. auto. Qed.
 Print Assumptions C13_example_deadline.
+
+(** Regression witness of the repaired finding dial-ok-closed/version-negotiation: a forged Version
+    Negotiation packet without a common version, with the server's genuine first flight and its transport
+    parameters queued right behind it. The attempt ends with VersionNegotiationError and nothing else is
+    handled: no packet counts as processed, the handshake cannot complete on the destroyed connection. *)
+Example C13_regression_vn_then_flight :
+  let s0 := init_client 2 [2] false [1;2;3] [] in
+  let ops := [ OpPkt (PVN true [1; 439041610]);
+               OpPkt (PLong TInitial 2 [4;4] [1;2;3] 0 PlPing);
+               OpTP [4;4] [1;2;3] None ] in
+  run ex_tagf s0 ops = (s0, [OVNError]) /\
+  run ex_tagf s0 (tl ops) = (record_pn (first_packet s0 [4;4]) 0, [OProcessed; OTPOk]).
+Proof. split; vm_compute; reflexivity. Qed.
+Print Assumptions C13_regression_vn_then_flight.
